@@ -211,6 +211,12 @@ func runC11(ctx *Ctx) {
 				}
 			}
 			ops = append(ops, &POp{Op: "update", Node: "c1", Peers: rep, Block: uint64(r), Elapsed: 1e9})
+			if rng.Intn(3) == 0 {
+				// the client comes back after a silence and registers again; a host that peers with it
+				// reports it before its own next keep-alive
+				ops = append(ops, &POp{Op: "advance", D: []int64{61e9, 130e9, 500e9}[rng.Intn(3)]}, &POp{Op: "connect", Node: "c1", Kind: "geth"},
+					&POp{Op: "update", Node: "h1", Peers: []string{"c1"}, Block: uint64(r)})
+			}
 			ctx.Count(fmt.Sprintf("pool-report-size:%d", len(rep)))
 			if rng.Intn(2) == 0 {
 				ops = append(ops, &POp{Op: "advance", D: gaps[rng.Intn(len(gaps))]})
